@@ -131,12 +131,100 @@ def check_container_bytes(chk):
     container.check_layout_bytes(chk)
 
 
+def check_scalar_types(chk):
+    """the field codecs of tdfTypes through BOTH of their interfaces — bytes (read / write) and streams (bread / bwrite):
+    little-endian, fields consecutive, exactly the type's width consumed, the two interfaces agree; the viewport's 16
+    bytes are origin then size; a date is a signed 32-bit second count"""
+    import io
+    import struct
+    import numpy as np
+    import basictdf.tdfTypes as T
+    rng = common.rng_for(chk.seed, "C06-types")
+    scal = {"i32": "<i", "u32": "<I", "i16": "<h", "u16": "<H", "f32": "<f", "f64": "<d"}
+    vecs = {"VEC3F": ("<3f", (3,)), "VEC3D": ("<3d", (3,)), "VEC2I": ("<2i", (2,)), "VEC2F": ("<2f", (2,)), "VEC2D": ("<2d", (2,)),
+            "MAT3X3F": ("<9f", (3, 3)), "MAT3X3D": ("<9d", (3, 3)), "Volume": ("<3f", (3,))}
+    for rep in range(20 if chk.tier == "quick" else 300):
+        for name, fmt in list(scal.items()) + [(k, v[0]) for k, v in vecs.items()]:
+            ty = getattr(T, name)
+            n = struct.calcsize(fmt)
+            raw = bytes(rng.getrandbits(8) for _ in range(n))
+            if "f" in fmt or "d" in fmt:            # compare floats through their bit patterns only
+                raw = struct.pack(fmt, *[float(rng.randrange(-1000, 1000)) / 8 for _ in range(len(struct.unpack(fmt, raw)))])
+            want = list(struct.unpack(fmt, raw))
+            chk.note_case(("type", name, raw), True)
+            chk.count("field codec through bytes and stream interfaces")
+            what = {"type": name, "bytes": list(raw)}
+            try:
+                a = ty.read(raw)
+                st = io.BytesIO(raw + b"\xAA\xBB\xCC")
+                b = ty.bread(st)
+                pos = st.tell()
+                flat = lambda x: [float(v) if "f" in fmt or "d" in fmt else int(v) for v in np.asarray(x).reshape(-1)]
+                back = ty.write(np.asarray(b))
+                out = io.BytesIO()
+                ty.bwrite(out, np.asarray(b))
+                found = None
+                if flat(a) != want or flat(b) != want:
+                    found = "%s: bytes %r read as %r (bytes interface) / %r (stream interface), little-endian they are %r" % (name, raw, flat(a), flat(b), want)
+                elif pos != n:
+                    found = "%s.bread consumed %d bytes, the type is %d wide" % (name, pos, n)
+                elif back != raw or out.getvalue() != raw:
+                    found = "%s: writing the value read does not give the bytes back (write %r, bwrite %r)" % (name, back, out.getvalue())
+                elif name in vecs and tuple(np.asarray(b).shape) != vecs[name][1]:
+                    found = "%s.bread returns shape %r" % (name, np.asarray(b).shape)
+            except Exception as e:
+                found = "%s: %s" % (name, common.exc_info(e))
+            if found:
+                chk.violation("C06 field codec " + found, what, True)
+                return
+        # viewport and date
+        nums = [rng.randrange(-2 ** 31, 2 ** 31) for _ in range(4)]
+        raw = struct.pack("<4i", *nums)
+        try:
+            v1 = T.CameraViewPort.read(raw)
+            st = io.BytesIO(raw + b"\xAA")
+            v2 = T.CameraViewPort.bread(st)
+            got = [[int(x) for x in np.asarray(v.origin).reshape(-1)] + [int(x) for x in np.asarray(v.size).reshape(-1)] for v in (v1, v2)]
+            out = io.BytesIO()
+            v2.bwrite(out)
+            found = None
+            if got[0] != nums or got[1] != nums:
+                found = "CameraViewPort: bytes of %r read as %r (bytes interface) / %r (stream interface)" % (nums, got[0], got[1])
+            elif st.tell() != 16 or v1.write() != raw or out.getvalue() != raw:
+                found = "CameraViewPort: consumed %d bytes; write gives %r, bwrite %r for %r" % (st.tell(), v1.write(), out.getvalue(), raw)
+        except Exception as e:
+            found = "CameraViewPort: " + common.exc_info(e)
+        chk.note_case(("viewport", tuple(nums)), True)
+        if found:
+            chk.violation("C06 field codec " + found, {"type": "CameraViewPort", "numbers": nums}, True)
+            return
+        sec = rng.choice((0, 1, -1, 2 ** 31 - 1, -2 ** 31, rng.randrange(-2 ** 31, 2 ** 31)))
+        raw = struct.pack("<i", sec)
+        try:
+            d1 = T.BTSDate.read(raw)
+            st = io.BytesIO(raw + b"\xAA")
+            d2 = T.BTSDate.bread(st)
+            out = io.BytesIO()
+            T.BTSDate.bwrite(out, d2)
+            found = None
+            if int(d1.timestamp()) != sec or int(d2.timestamp()) != sec:
+                found = "BTSDate: the bytes of %d read as %d (bytes) / %d (stream)" % (sec, int(d1.timestamp()), int(d2.timestamp()))
+            elif st.tell() != 4 or T.BTSDate.write(d1) != raw or out.getvalue() != raw:
+                found = "BTSDate: consumed %d bytes; write gives %r, bwrite %r for %r" % (st.tell(), T.BTSDate.write(d1), out.getvalue(), raw)
+        except Exception as e:
+            found = "BTSDate %d: %s" % (sec, common.exc_info(e))
+        chk.note_case(("date", sec), True)
+        if found:
+            chk.violation("C06 field codec " + found, {"type": "BTSDate", "seconds": sec}, True)
+            return
+
+
 def run(chk):
     chk.rule = ("valid blocks of all nine types (as C01): exact bytes of _write against the layout-driven encoder "
                 "(Fmt.enc over Blocks.v), and bytes produced by the free encoder with junk (37*off+11 mod 256) in every "
                 "don't-care position fed to _build; conformant bytes whose segment tables are not sorted / not maximal (reversed, rotated, split runs) against the layout-driven decoder; the 8 BTS capture blocks: decoded fields equal the layout-driven "
                 "decoder's, consumed = jump-table size, and every byte outside the don't-care positions reproduced by "
-                "re-encoding; file header / table entries against Entry.v; also: blocks built, used (sized / encoded / compared / printed), then edited IN PLACE to another content of the same shape and used again; blocks built from arrays with the same values but another memory layout (column-major, strided, reversed, big-endian, read-only, unaligned); non-trivial = >=1 item and (gap or >=2 items)")
+                "re-encoding; file header / table entries against Entry.v; also: blocks built, used (sized / encoded / compared / printed), then edited IN PLACE to another content of the same shape and used again; blocks built from arrays with the same values but another memory layout (column-major, strided, reversed, big-endian, read-only, unaligned); the field codecs of tdfTypes (six scalar types, eight vector / matrix types, viewport, date) through their bytes and their stream interface against struct's little-endian reading; non-trivial = >=1 item and (gap or >=2 items)")
     corpus = codec.load_corpus("C06")
     check_cases(chk, corpus)
     n = 1200 if chk.tier == "quick" else 20000
@@ -150,6 +238,7 @@ def run(chk):
     check_noncanonical(chk)
     check_capture(chk)
     check_container_bytes(chk)
+    check_scalar_types(chk)
 
 
 def replay(chk, path):
